@@ -96,6 +96,49 @@ func genSteps(g *sgen.G, t *rapid.T, depth int, allowUnknown bool, st *lstats, p
 	return out
 }
 
+// plantUnknown inserts 1-2 unknown steps at uniformly chosen (list, position) places of the
+// step tree: every list at every depth and every index is equally likely.
+func plantUnknown(t *rapid.T, top pipeline.Steps, st *lstats) pipeline.Steps {
+	for k, n := 0, rapid.IntRange(1, 2).Draw(t, "nunknown"); k < n; k++ {
+		type slot struct {
+			group *pipeline.GroupStep // nil = top level
+			depth int
+		}
+		slots := []slot{{nil, 0}}
+		var collect func(ss pipeline.Steps, depth int)
+		collect = func(ss pipeline.Steps, depth int) {
+			for _, s := range ss {
+				if g, ok := s.(*pipeline.GroupStep); ok {
+					slots = append(slots, slot{g, depth + 1})
+					collect(g.Steps, depth+1)
+				}
+			}
+		}
+		collect(top, 0)
+		sl := slots[rapid.IntRange(0, len(slots)-1).Draw(t, "unkslot")]
+		var unk pipeline.Step = &pipeline.UnknownStep{Contents: "mystery"}
+		if rapid.Bool().Draw(t, "unkmap") {
+			unk = &pipeline.UnknownStep{Contents: ordered.MapFromItems(ordered.TupleSA{Key: "future", Value: "step"})}
+		}
+		insert := func(ss pipeline.Steps) pipeline.Steps {
+			at := rapid.IntRange(0, len(ss)).Draw(t, "unkat")
+			out := append(pipeline.Steps{}, ss[:at]...)
+			out = append(out, unk)
+			return append(out, ss[at:]...)
+		}
+		if sl.group == nil {
+			top = insert(top)
+		} else {
+			sl.group.Steps = insert(sl.group.Steps)
+		}
+		st.nunknown++
+		if sl.depth > st.unknownDepth {
+			st.unknownDepth = sl.depth
+		}
+	}
+	return top
+}
+
 func walk(ss pipeline.Steps, f func(*pipeline.CommandStep)) {
 	for _, s := range ss {
 		switch t := s.(type) {
@@ -127,7 +170,10 @@ func TestPropSignSteps(t *testing.T) {
 		}
 		sort.Strings(pnames)
 		allowUnknown := rapid.IntRange(0, 2).Draw(t, "allowunknown") == 0
-		steps := genSteps(g, t, 0, allowUnknown, st, pnames)
+		steps := genSteps(g, t, 0, false, st, pnames)
+		if allowUnknown {
+			steps = plantUnknown(t, steps, st)
+		}
 		kp := rapid.SampledFrom(pool).Draw(t, "key")
 		if rapid.IntRange(0, 3).Draw(t, "slowkey") > 0 {
 			kp = pool[rapid.IntRange(0, 1).Draw(t, "fastkey")] // mostly EdDSA: cheap
